@@ -191,6 +191,9 @@ def run(ctx):
     for m, n in badj:
         res.add(Finding('C08', 'C08.f', 'R-ABSINT', m.file, m.qualname, n.lineno, norm(n),
                         'join() without timeout on a worker that may be hung: if it does not die the run blocks and no later recording gets a verdict'))
+    c13.terminate_event_clause(ctx, res, cfj, 'C08', 'C08.f')
+    from . import recmodel as rm
+    rm.replay_idle_clause(ctx, res, 'C08', 'C08.g', 'a failed replay leaves the recorder idle (later recordings in the same process are unaffected)')
     # ---------------- C08.d
     callers = {m.name for m in eq.methods.values() for n in ast.walk(m.node) if isinstance(n, ast.Call) and self_attr(n.func) == pac.name}
     impls = [m for m in eq.methods.values() if m is not pac and any(isinstance(n, ast.Call) and self_attr(n.func) == 'player' for n in ast.walk(m.node))]
